@@ -33,7 +33,7 @@ type cStep struct {
 	Data  string `json:"data,omitempty"`
 	Off   uint64 `json:"off,omitempty"`
 	Len   uint64 `json:"len,omitempty"`
-	Yield int    `json:"yield,omitempty"` // 1: Gosched before the call is stamped, 2: between stamp and call
+	Yield int    `json:"yield,omitempty"`     // 1: Gosched before the call is stamped, 2: between stamp and call
 	Nil   bool   `json:"nil_slice,omitempty"` // append/atomic with empty data: pass a nil slice instead of an empty one
 }
 
